@@ -47,13 +47,13 @@ func (d *fakeDB) GetIPInfo(ip net.IP) (ipinfo.IPInfo, error) {
 }
 
 type C20Class struct {
-	Via    string `json:"via"`  // addr | ip
-	Form   string `json:"form"` // tcp | udp | nil | noport | garbage | zoned | hostname
-	IP     string `json:"ip"`
-	DB     string `json:"db"` // disabled | hit | empty | error
-	CC     string `json:"cc"`
-	ASN    int    `json:"asn"`
-	Len4   bool   `json:"len4"`
+	Via  string `json:"via"`  // addr | ip
+	Form string `json:"form"` // tcp | udp | nil | noport | garbage | zoned | hostname
+	IP   string `json:"ip"`
+	DB   string `json:"db"` // disabled | hit | empty | error
+	CC   string `json:"cc"`
+	ASN  int    `json:"asn"`
+	Len4 bool   `json:"len4"`
 }
 
 var nonGlobal = func() []netip.Prefix {
@@ -229,7 +229,7 @@ type C20Op struct {
 }
 
 type C20Expo struct {
-	IPs   [2]string `json:"ips"`   // two client addresses of the same class
+	IPs   [2]string `json:"ips"` // two client addresses of the same class
 	Ports [2]int    `json:"ports"`
 	DB    string    `json:"db"`
 	CC    string    `json:"cc"`
